@@ -28,6 +28,7 @@ package car
 //@   ensures progress [C09]: err == nil ==> cr.br == old(cr.br) && pos(cr.br) > old(pos(cr.br)) && pos(cr.br) <= lim(cr.br)
 
 //@ func loadCarFast
+//@   check clean_end_is_success [C02]: nerr == io.EOF && (len(buf) == 0 || ferr == nil) ==> err == nil && result0 == cr.Header
 //@   loop[0] decreases lim(cr.br) - pos(cr.br)
 //@   let blk, nerr := call[CarReader.Next#0]
 //@   let ferr := call[batchStore.PutMany#0]
@@ -41,6 +42,7 @@ package car
 //@   loop[0] step batch_restarts_only_after_a_flush [C02]: len(buf) == 0 || len(buf) == athead(0, len(buf)) + 1
 
 //@ func loadCarSlow
+//@   ensures clean_end_is_success [C02]: nerr == io.EOF ==> err == nil && result0 == cr.Header
 //@   loop[0] decreases lim(cr.br) - pos(cr.br)
 //@   let blk, nerr := call[CarReader.Next#0]
 //@   let perr := call[Store.Put#0]
